@@ -12,8 +12,11 @@ no constant is copied into the checker):
     consumed elsewhere in the same result - otherwise bits are silently dropped (this is what fails for the AVX2 a*a
     product with a 31-bit prime set).
 Not decided: congruence of the results modulo each prime (modular algebra) - only that the integer computation it
-relies on is exact.  NTT / iNTT levels: see evidence key ntt_certificate (per-level interval certificate on the
-instantiated transform for the listed n; larger n not covered by this tier)."""
+relies on is exact.
+NTT / iNTT: for every n = 1 .. 2048 (quick) / 65536 (thorough) the forward and the inverse transform are instantiated in
+the interval machine (tables and per-level metadata - half bit-size, masks, q<<k offsets, reduce flags - built by the
+constructors of the current source; the data lanes are the interval [0, 2^64)) and no add / mul / shl / lazy subtraction
+leaves its word at any level; the evidence lists the bit envelope of the outputs per n."""
 import os
 import re
 import subprocess
@@ -110,6 +113,73 @@ def _job(args):
     return out.get('r', (None, None, 0, 'worker died'))
 
 
+def _ntt_job(args):
+    import sys
+    import threading
+    n, = args
+    out = {}
+
+    def work():
+        try:
+            from ..harness import Ctx
+            from ..trusted import TRUSTED
+            L = ctx.lib()
+            res = []
+            for which in ('ntt', 'intt'):
+                c = Ctx(L, 'accel', trusted=TRUSTED, intervals=True)
+                pre = c.construct('q120_new_%s_bb_precomp' % which, [n])
+                data = c.buf('data', 32 * n, 'inout')
+                st, _, _ = c.run('q120_%s_bb_avx2' % which, [pre, data])
+                del c.m.events[:]
+                f = sorted(c.m.findings.items(), key=str)[:2]
+                mx = max((v.hi for _, (s, v) in getattr(data.obj, 'vstore', {}).items() if hasattr(v, 'hi')), default=0)
+                res.append((which, st, [(loc, k, fn, hi.bit_length()) for loc, (k, lo, hi, fn) in f], c.m.nops, mx.bit_length()))
+            out['r'] = (res, None)
+        except (Unsupported, NeedEnum) as e:
+            out['r'] = (None, str(e))
+        except Exception as e:  # noqa
+            out['r'] = (None, 'internal error: %r' % (e,))
+
+    sys.setrecursionlimit(200000)
+    threading.stack_size(256 * 1024 * 1024)
+    t = threading.Thread(target=work)
+    t.start()
+    t.join()
+    return out.get('r', (None, 'worker died'))
+
+
+def ntt_intervals(R, tier):
+    """per-level envelope of the NTT / iNTT on arbitrary 64-bit lanes, for every n of the tier (eager interval machine)"""
+    from concurrent.futures import ProcessPoolExecutor
+    from ..trusted import validate
+    for p in validate(ctx.lib()):
+        R.broke(p)
+    ns = [1 << k for k in range(0, 12 if tier == 'quick' else 17)]
+    with ProcessPoolExecutor(max_workers=min(14, len(ns))) as ex:
+        results = list(ex.map(_ntt_job, [(n,) for n in ns]))
+    nops = 0
+    env = {}
+    for n, (res, err) in zip(ns, results):
+        if err:
+            R.broke('NTT intervals n=%d: %s' % (n, err))
+            continue
+        for which, st, finds, ops, bits in res:
+            nops += ops
+            subj = 'q120_%s_bb_avx2 n=%d' % (which, n)
+            env['%s n=%d' % (which, n)] = bits
+            if st != 'ok':
+                R.ob('ntt-level-envelope-never-wraps', subj, 'refuted', detail='call %s' % (st,), key='q120_%s:n=%d:status' % (which, n))
+            elif finds:
+                loc, kind, fn, hb = finds[0]
+                R.ob('ntt-level-envelope-never-wraps', subj, 'refuted',
+                     detail='%s in %s: an intermediate can reach %d bits on full-range 64-bit lanes' % (kind, fn, hb),
+                     key='q120_%s:%s' % (which, (loc or '').split('/')[-1]), loc=loc, witness={'n': n, 'lanes': 'any 64-bit value'})
+            else:
+                R.ob('ntt-level-envelope-never-wraps', subj, 'holds', detail='output lanes below 2^%d' % bits)
+    R.extra['ntt_output_bit_envelope'] = env
+    return nops
+
+
 def run(tier):
     R = Report('C04', tier)
     L = ctx.lib()
@@ -156,13 +226,15 @@ def run(tier):
             R.broke('split point h of the %s table could not be derived from the constructor' % lay)
     R.extra['MAX_ELL'] = ME
     R.extra['tables_from_current_source'] = tbl
-    R.extra['ntt_certificate'] = 'not covered in this tier (see DESIGN: staged)'
+    nn = ntt_intervals(R, tier)
+    R.floor('interval operations in the NTT/iNTT envelopes', nn, 500000)
+    R.extra['ntt_certificate'] = 'n = 1 .. %d' % (2048 if tier == 'quick' else 65536)
     # canary: an accumulator that exceeds 64 bits at MAX_ELL
     from ..fixcheck import interval_canary
     interval_canary(R, ME)
     R.rules.append('evaluation = one node of the value DAG of a product at ell = MAX_ELL given an interval; obligation = kernel')
     R.assumptions += ['operands respect their layout (a: lanes < 2^32 in 64-bit words; b: any 64-bit lane; c: any 32-bit words)',
                       'intervals ignore correlations between lanes (conservative); congruence mod q is not decided',
-                      'NTT/iNTT per-level envelope not covered by this check']
+                      'NTT/iNTT envelopes: quick tier covers n <= 2048, thorough all n <= 65536']
     return R.finish('E5: interval analysis of the expression DAG of each product at maximal length and maximal operands, tables '
                     'obtained by instantiating the constructors of the current source.')
